@@ -15,6 +15,8 @@ export PROPS="$*" TIER ENV PATCH
 unshare -m bash -c '
   mount --bind $ENV/repo /repo && mount --bind $ENV/verif /verif || exit 9
   cd /repo && git checkout -q -- . 2>/dev/null
+  # settle the copied Coq build (the copy may have been taken while a file was being compiled)
+  ( cd /verif/coq && coq_makefile -f _CoqProject -o Makefile >/dev/null 2>&1 && timeout 3000 make -j8 >/dev/null 2>&1 )
   if [ "$PATCH" != none ]; then git apply --whitespace=nowarn $ENV/patch.diff || { echo "PATCH-DOES-NOT-APPLY"; exit 8; }; fi
   cd /verif
   for p in $PROPS; do
